@@ -181,6 +181,14 @@ def digest(b):
             f'ite={{{ite}}} vars={{{vars_}}} l2v={{{l2v}}} ll={ll} ctx={ctx}')
 
 
+class Extra:
+    """result of an operation whose case line gets extra (oracle) arguments
+    that are known only after the implementation ran"""
+    def __init__(self, value, extra):
+        self.value = value
+        self.extra = extra
+
+
 class Raw(str):
     """a value already rendered in canonical text"""
 
@@ -295,6 +303,7 @@ class Impl:
         for b in self.mgr.values():
             b._ref = {1: 0}
         self.mgr = dict()
+        self._rm_tmp()
         for k, hs in self.handles.items():
             for f in hs.values():
                 f.node = None          # disarm __del__
@@ -591,6 +600,50 @@ class Impl:
     def op_contains(self, b, u):
         return u in b
 
+    # ---- files (pickle) ----
+    def _path(self, fid, ext='.p'):
+        import os
+        import tempfile
+        if getattr(self, 'tmpdir', None) is None:
+            self.tmpdir = tempfile.mkdtemp(prefix='ddverif')
+        return os.path.join(self.tmpdir, f'f{fid}{ext}')
+
+    def _rm_tmp(self):
+        import shutil
+        if getattr(self, 'tmpdir', None):
+            shutil.rmtree(self.tmpdir, ignore_errors=True)
+            self.tmpdir = None
+
+    def op_dump(self, b, fid, roots, *oracle):
+        import pickle
+        fn = self._path(fid)
+        if isinstance(roots, dict):
+            roots = {vname(k): u for k, u in roots.items()}
+        b.dump(fn, roots=roots)
+        d = pickle.load(open(fn, 'rb'))
+        return Extra(None, [list(d['succ']), [vid(v) for v in d['vars']]])
+
+    def op_load(self, b, fid, levels):
+        r = b.load(self._path(fid), levels=levels)
+        if isinstance(r, dict):
+            return [[vid(k), u] for k, u in r.items()]
+        return r
+
+    def op_dump_manager(self, b, fid, *oracle):
+        import pickle
+        fn = self._path(fid, '.mp')
+        b._dump_manager(fn)
+        d = pickle.load(open(fn, 'rb'))
+        return Extra(None, [[vid(v) for v in d['vars']]])
+
+    def op_load_manager(self, m, fid):
+        old = self.mgr.get(m)
+        new = _b.BDD._load_manager(self._path(fid, '.mp'))
+        if old is not None:
+            old._ref = {1: 0}
+        self.mgr[m] = new
+        return None
+
     def op_to_nx(self, b, roots):
         g = _b.to_nx(b, set(roots))
         nodes = sorted({(u, d['level']) for u, d in g.nodes(data=True)})
@@ -629,13 +682,13 @@ class Impl:
             try:
                 if isinstance(m, str):
                     r = self.arun(m, name, *args)
-                elif name == 'new':
+                elif name in ('new', 'load_manager'):
                     f = getattr(self, 'op_' + name)
                     r = f(m, *args)
                 else:
                     f = getattr(self, 'op_' + name)
                     r = f(self.mgr[m], *args)
-                res = 'ok:' + show_value(r)
+                res = 'ok:' + show_value(r.value if isinstance(r, Extra) else r)
             except _b._NeedsReordering:
                 res = 'err:needs_reordering'
             except RecursionError:
